@@ -654,20 +654,25 @@ def classify(prog1):
     return deep or maxchain >= 2, labels
 
 
-def feature_bucket(prog1):
-    """root-cause oriented signature of a *minimised* failing case: which argument shapes are still
-    passed and what the callees still do."""
+def features(prog1):
+    """root-cause oriented features of a failing case (taken from the *minimised* case to name a bucket;
+    later failures of the same kind whose features include them are attributed to that bucket): which
+    argument shapes are passed / lent on and what else is involved."""
     c = prog1["cases"][0]
-    args = sorted({sh.split(":")[0] for s in c["body"] for sh in s.get("shapes", []) if s["kind"] == "call"})
-    lends = sorted({sh.split(":")[0] for _, s in stmts_reachable(prog1) if s["kind"] == "call" for sh in s.get("shapes", [])})
-    feats = [prog1["leaf"], "arg=" + "+".join(args or ["none"])]
-    if lends:
-        feats.append("lend=" + "+".join(lends))
+    f = {prog1["leaf"]}
+    f |= {"arg=" + sh.split(":")[0] for s in c["body"] for sh in s.get("shapes", []) if s["kind"] == "call"}
+    f |= {"lend=" + sh.split(":")[0] for _, s in stmts_reachable(prog1) if s["kind"] == "call" for sh in s.get("shapes", [])}
     if any(s.get("nargs", 0) > 1 for s in c["body"]) or any(s.get("nargs", 0) > 1 for _, s in stmts_reachable(prog1)):
-        feats.append("multi")
-    if any(f["ret"] for f in prog1["funcs"]):
-        feats.append("ret")
-    return ":".join(feats)
+        f.add("multi")
+    if any(fn["ret"] for fn in prog1["funcs"]):
+        f.add("ret")
+    return f
+
+
+def bucket_name(kind, feats):
+    if kind.startswith("crash:"):
+        return kind  # exception type + innermost compiler frame is the root-cause signature
+    return kind + ":" + ":".join(sorted(feats))
 
 
 def minimise(prog1, kind, deadline, clock):
@@ -710,8 +715,8 @@ def worker(ctx):
 
     strategy = st.randoms(use_true_random=True)
     shrink_spent = [0.0]
-    SHRINK_CAP = ctx.budget_s * 0.35
-    known = set()
+    SHRINK_CAP = ctx.budget_s * 0.3
+    known = {}  # bucket -> (kind, features of the minimised case)
     rejected = [0]
     total = [0]
 
@@ -745,19 +750,22 @@ def worker(ctx):
                 continue
             kind, detail = r
             small = p1
-            if shrink_spent[0] < SHRINK_CAP and not ctx.out_of_time(0.85) and len(known) < 4:
-                t0 = time.monotonic()
-                small = minimise(p1, kind, t0 + min(ctx.budget_s * 0.2, SHRINK_CAP - shrink_spent[0]), time.monotonic)
-                shrink_spent[0] += time.monotonic() - t0
-                r2 = evaluate(small, [0]).get(0)
-                if r2 and r2[0] == kind:
-                    detail = r2[1]
+            feats = features(p1)
+            sig = next((sg for sg, (k2, f2) in known.items() if k2 == kind and f2 <= feats), None)
+            if sig is None:
+                if shrink_spent[0] < SHRINK_CAP and not ctx.out_of_time(0.6):
+                    t0 = time.monotonic()
+                    small = minimise(p1, kind, t0 + min(ctx.budget_s * 0.15, SHRINK_CAP - shrink_spent[0]), time.monotonic)
+                    shrink_spent[0] += time.monotonic() - t0
+                    r2 = evaluate(small, [0]).get(0)
+                    if r2 and r2[0] == kind:
+                        detail = r2[1]
+                    else:
+                        small = p1
+                    sig = bucket_name(kind, features(small))
+                    known[sig] = (kind, features(small))
                 else:
-                    small = p1
-                sig = f"{kind}:{feature_bucket(small)}"
-                known.add(sig)
-            else:
-                sig = f"{kind}:unminimised"
+                    sig = kind if kind.startswith("crash:") else kind + ":unminimised"
             src = program_src(small, [0])
             ctx.violation(sig, {"src": src, "bucket": sig, "qubits": small["cases"][0]["qubits"], "leaf": small["leaf"]},
                           f"{detail}\n--- program\n{src}")
